@@ -192,6 +192,40 @@ def check_C13(ctx):
     cases = histories(ctx, alpha, setups, rnd, ['opt', 'ent'], 2 if ctx.quick else 3, 1500 if ctx.quick else 40000, 16 if ctx.quick else 40)
     n1 = run_histories(ctx, pool, cases, 'S', 'optional-histories',
                        'Optional<T>/Entry<T,Id> state and element lifetime after every step = model o_step', extra_oracle=post_state_oracle('opt'))
+    # outside the model's alphabet, judged by the oracles only: assignment of a value whose copy constructor throws (T; an
+    # empty target must stay empty, nothing is destroyed that was not constructed) and move-assignment from a plain
+    # Optional<T> (O; the source must be left empty also when the target is an Entry)
+    xl = []
+    for kind in ('opt', 'ent'):
+        for su in setups:
+            for ops_ in (['T0:4'], ['T1:4'], ['O0:9'], ['O1:9'], ['T0:4', 'O0:9', 'T0:3'], ['O1:8', 'c1', 'T1:2', 'm0:1'], ['T2:1', 'O2:6', 'D2']):
+                xl.append('%s %s' % (kind, ','.join(su + ops_)))
+        for _ in range(150 if ctx.quick else 4000):
+            xl.append('%s %s' % (kind, ','.join(rng.choice(rnd + ['T0:4', 'T1:5', 'T2:6', 'O0:7', 'O1:8', 'O2:9']) for _ in range(rng.randint(3, 14)))))
+    xo = run_objs(pool, xl)
+    for line, o in zip(xl, xo):
+        ctx.count('optional-throwing-and-mixed', line)
+        if o.startswith(BADOUT):
+            ctx.violate('memory-error', 'optional histories with a throwing copy / a plain Optional source crashed: %s -> %s' % (line[:200], o[:300]), {'case': line, 'output': o})
+            continue
+        v = 'the plain Optional a value was move-assigned from still holds it' if 'SRC-NOT-EMPTIED' in o else lifetime_oracle(o.replace('SRC-NOT-EMPTIED', ''), 'S')
+        if not v:
+            ops_, raw, i_, prev = line.split(' ')[1].split(','), o.split(' '), 0, ['X', 'X', 'X']
+            for op in ops_:
+                skipped = raw[i_] == 'skip'
+                tok = raw[i_ + 1] if skipped else raw[i_]
+                i_ += 2 if skipped else 1
+                st = tok.split('|', 1)[1].split(';')
+                if not skipped and op[0] in 'TO':
+                    t_, x_ = op[1:].split(':')
+                    t_ = int(t_)
+                    want = ('E' if prev[t_] == 'E' else 'S' + x_) if op[0] == 'T' else 'S' + x_
+                    if st[t_] != want:
+                        v = 'after %s object %d is %s; it must be %s' % (op, t_, st[t_], want)
+                        break
+                prev = st
+        if v:
+            ctx.violate('lifetime:opt-extra', 'optional histories (throwing copy, plain Optional source): %s; history: %s' % (v, line[:300]), {'case': line, 'output': o})
     # Result / Status
     rsetups = [[], ['N0'], ['V0:5'], ['E0:2'], ['V0:5', 'E1:1'], ['V0:5', 'V1:6'], ['E0:1', 'N1'], ['V0:5', 'E1:3', 'N2']]
     ralpha = res_alphabet([0, 1], [7], [0, 2], False) + ['a0:2', 'm0:2', 'm2:0', 'w1:8', 'M2:4', 'r2:1']
